@@ -298,10 +298,12 @@ class HTMLSerializer(object):
                     in_cdata = True
                 elif in_cdata:
                     self.serializeError("Unexpected child element of a CDATA element")
+                unquoted_value_last = False
                 for (_, attr_name), attr_value in token["data"].items():
                     # TODO: Add namespace support here
                     k = attr_name
                     v = attr_value
+                    unquoted_value_last = False
                     yield self.encodeStrict(' ')
 
                     yield self.encodeStrict(k)
@@ -337,8 +339,11 @@ class HTMLSerializer(object):
                             yield self.encodeStrict(quote_char)
                         else:
                             yield self.encode(v)
+                            unquoted_value_last = True
                 if name in voidElements and self.use_trailing_solidus:
-                    if self.space_before_trailing_solidus:
+                    # a solidus directly after an unquoted attribute value would
+                    # be read as part of that value
+                    if self.space_before_trailing_solidus or unquoted_value_last:
                         yield self.encodeStrict(" /")
                     else:
                         yield self.encodeStrict("/")
